@@ -635,6 +635,26 @@ def check_xyz_pdb(rep, F, consts):
             comps = [re.search(r"getPos\(.*\)\.([xyz])$", i).group(1) for i in items if re.search(r"getPos\(.*\)\.[xyz]$", i)]
             rep.check(comps == ["x", "y", "z"], "R8.1", "%s|order" % cls.lower()[:3], "%s formats x, y, z in order" % cls,
                       "%s formats position components in order %s" % (cls, comps), w.loc())
+    # xyz line structure: lines the writer emits before the first atom record == lines the reader consumes before its atom loop
+    wt = [x for x in F.find(C + "XYZWriter::Write") if x.j["template"] in ("instantiation", "pattern") and len(x.j["params"]) == 2]
+    wtop = [x for x in F.find(C + "XYZWriter::Write") if len(x.j["params"]) == 1 and "Topology" in x.j["sig"]]
+    rdf = [x for x in F.find(C + "XYZReader::ReadFrame")]
+    if wt and wtop and rdf:
+        def first_loop_line(f_):
+            ls = [n.get("line") for n in f_.walk() if n.get("k") in ("for", "rangefor", "while") and n.get("line")]
+            return min(ls) if ls else 10**9
+        w0, r0 = wt[0], rdf[0]
+        lw, lr = first_loop_line(w0), first_loop_line(r0)
+        pre_w = sum(str(n.get("v", "")).count("\n") for n in w0.walk() if n.get("k") == "str" and (n.get("line") or 0) < lw and "%" not in str(n.get("v", "")))
+        hdr_nl = sum(str(n.get("v", "")).count("\n") for n in wtop[0].walk() if n.get("k") == "str")
+        pre_r = len([n for n in r0.walk() if n.get("k") == "call" and "getline" in (n.get("callee") or "") and (n.get("line") or 0) < lr])
+        rep.analysed(wtop[0]); rep.analysed(w0); rep.analysed(r0)
+        rep.check(pre_w + hdr_nl == pre_r and pre_r >= 2, "R8.1", "xyz|line-structure", "count line + one title line precede the atom records on both sides (%d)" % pre_r,
+                  "XYZWriter puts %d line breaks before the first atom record (%d in Write<T>: after the count and after the header; %d inside the header text that "
+                  "Write(Topology*) passes), XYZReader consumes %d lines before its atom loop: the reader meets a blank/shifted line where it expects the first atom and rejects "
+                  "(or misreads) a file the writer produced" % (pre_w + hdr_nl, pre_w, hdr_nl, pre_r), wtop[0].loc(), sample=True)
+    else:
+        rep.broken("R8.1", "xyz writer/reader functions not found for the line-structure rule")
     # xyz reader: AddAtom for topologies
     adds = [f for f in F.find(C + "XYZReader::AddAtom") if f.j["template"] == "instantiation" and "Topology" in (f.j.get("qname_targs") or "") + f.j["sig"]]
     rep.floor("R8.1", len(adds), 1, "XYZReader::AddAtom<.., Topology> instantiations")
